@@ -18,30 +18,42 @@ def showEntry (d : Disk) (e : Entry) : String :=
   let dg := match loadDiagnostics consts d e with | none => "-" | some x => "=" ++ x
   s!"hash={e.hash} frag={ld} deps={showList e.dependents} tests={showList e.tests} diag={dg}"
 
+/-- Request line → operation of the verified state machine (`Core/Store.lean`, `Op`). -/
+def parseOp : List String → Option Op
+  | ["open", key] => some (.open key)
+  | ["drop"] => some .drop
+  | ["put", p, h, b] => some (.put p h (if b = "-" then none else some b))
+  | ["setdiag", p, b] => some (.setDiagnostics p b)
+  | ["keep", p] => some (.keep p)
+  | ["inval", p] => some (.invalidate p)
+  | ["deps", p, l] => some (.setDependents p (parseList l))
+  | ["tests", p, l] => some (.setTests p (parseList l))
+  | ["save"] => some .save
+  | _ => none
+
+/-- `open`/`drop` are always possible; every other operation is a method of an open store. -/
+def needsStore : Op → Bool
+  | .open _ => false
+  | .drop => false
+  | _ => true
+
+/-- Observations (`entry`, `blobs`) are answered here; every state change goes through
+    `VerylModel.Store.step`, the function the C29 theorems are about. -/
 def step (s : St) (t : List String) : St × String :=
   match t, s.mem with
   | ["reset"], _ => ({}, "ok")
-  | ["open", key], _ => ({ s with mem := some (openStore consts s.disk key) }, "ok")
-  | ["drop"], _ => ({ s with mem := none }, "ok")
   | ["blobs"], _ =>
     (s, s!"blobs={s.disk.blobs.length} manifest={if s.disk.manifest.isSome then 1 else 0}")
   | ["entry", p], some m =>
     (s, match entry m p with | none => "none" | some e => showEntry s.disk e)
-  | ["put", p, h, b], some m =>
-    let blob := if b = "-" then none else some b
-    let (d', m') := put consts s.disk m p h blob
-    ({ disk := d', mem := some m' }, "ok")
-  | ["setdiag", p, b], some m =>
-    let (d', m') := setDiagnostics consts s.disk m p b
-    ({ disk := d', mem := some m' }, "ok")
-  | ["keep", p], some m => ({ s with mem := some (keep m p) }, "ok")
-  | ["inval", p], some m => ({ s with mem := some (invalidate m p) }, "ok")
-  | ["deps", p, l], some m => ({ s with mem := some (setDependents m p (parseList l)) }, "ok")
-  | ["tests", p, l], some m => ({ s with mem := some (setTests m p (parseList l)) }, "ok")
-  | ["save"], some m =>
-    let (d', m') := save consts s.disk m
-    ({ disk := d', mem := some m' }, "ok")
-  | _, _ => (s, "bad-op")
+  | _, _ =>
+    match parseOp t with
+    | none => (s, "bad-op")
+    | some o =>
+      if needsStore o && s.mem.isNone then (s, "bad-op")
+      else
+        let r := VerylModel.Store.step consts (s.disk, s.mem) o
+        ({ disk := r.1, mem := r.2 }, "ok")
 
 def run : IO Unit := runLines ({} : St) step
 
